@@ -22,7 +22,9 @@ package checker_test
 //      the checker (LoadSnapshots, LoadIndex, Packs, Structure, ReadPacks; the
 //      same classification of hints/orphaned packs as non-errors): >= 1 error,
 //      or the repository does not open.  Demanded for every site except the
-//      deletion of a snapshot file (nothing left depends on a deleted snapshot).
+//      deletion of a snapshot file (nothing left depends on a deleted snapshot)
+//      and the two files of the dup variant that no snapshot depends on (the
+//      pack holding only the duplicate copy and the index file listing it).
 //  (2) reads never return other bytes: every blob the pristine repository holds
 //      is loaded through LoadBlob -> an error or exactly the pristine plaintext;
 //      every snapshot that still loads is walked (LoadSnapshot, LoadTree,
@@ -212,7 +214,7 @@ type verifC03Fixture struct {
 	blobs     map[restic.BlobHandle][]byte         // pristine plaintext of every indexed blob
 	snapshots map[restic.ID]map[string][]byte      // snapshot -> path -> content
 	snapIDs   []restic.ID                          // in backup order
-	unrefPack map[backend.Handle]bool              // packs no snapshot depends on (dup variant)
+	unrefPack map[backend.Handle]bool              // files no snapshot depends on (dup variant: extra pack + its index)
 }
 
 func verifC03SaveDir(t testing.TB, ctx context.Context, up restic.BlobSaver, dir verifC03Dir, prefix string, truth map[string][]byte) restic.ID {
@@ -328,6 +330,10 @@ func verifC03Build(t testing.TB, name string, version uint, scale int, dup bool)
 				}
 			case backend.IndexFile, backend.SnapshotFile:
 				r = fmt.Sprintf("%v-%s", ft, known[h])
+				if known[h] == "dup" {
+					// the index file that only lists the pack with the duplicate copy
+					f.unrefPack[h] = true
+				}
 			}
 			f.files = append(f.files, verifC03File{role: r, h: h, data: buf})
 			f.byHandle[h] = buf
@@ -629,7 +635,12 @@ func TestVerif_C03(t *testing.T) {
 					needReport, depends = false, false
 				}
 				if f.unrefPack[file.h] {
+					// no snapshot depends on the extra pack / its index file of the dup variant:
+					// the statement demands nothing for them (oracle (2) still applies)
 					depends = false
+					if len(sites) == 1 {
+						needReport = false
+					}
 				}
 				names = append(names, fmt.Sprintf("%s:%s@%d", file.role, s.op, s.off))
 			}
